@@ -12,6 +12,7 @@ namespace
 struct World
 {
     int size = 1;
+    int outsiders = 0;
     std::vector<int> perm;
     std::mutex m;
     std::condition_variable cv;
@@ -106,11 +107,16 @@ void complete(World& w)
     w.cv.notify_all();
 }
 
-int collective(int kind, void const* send, void* recv, int count, int type, int op, int root)
+int collective(MPI_Comm comm, int kind, void const* send, void* recv, int count, int type, int op, int root)
 {
     World& w = *g_world;
     std::unique_lock<std::mutex> lock(w.m);
     if (w.hung) throw shim_hang();
+    if (comm == MPI_COMM_WORLD && w.outsiders > 0)
+    {
+        // the integration runs on a part of the world; the other processes never enter this collective
+        w.hung = true; w.cv.notify_all(); throw shim_hang();
+    }
     w.log[t_rank].push_back(shim_coll{kind, count, type});
     auto& c = w.contrib[t_rank];
     c.kind = kind; c.count = count; c.type = type; c.op = op; c.root = root; c.recv = recv; c.present = true;
@@ -132,17 +138,18 @@ int collective(int kind, void const* send, void* recv, int count, int type, int 
 }
 }
 
-int MPI_Comm_rank(MPI_Comm, int* rank) { *rank = t_rank; return MPI_SUCCESS; }
-int MPI_Comm_size(MPI_Comm, int* size) { *size = g_world ? g_world->size : 1; return MPI_SUCCESS; }
-int MPI_Allreduce(void const* s, void* r, int count, MPI_Datatype t, MPI_Op op, MPI_Comm) { return collective(0, s, r, count, t, op, 0); }
-int MPI_Reduce(void const* s, void* r, int count, MPI_Datatype t, MPI_Op op, int root, MPI_Comm) { return collective(1, s, r, count, t, op, root); }
-int MPI_Bcast(void* b, int count, MPI_Datatype t, int root, MPI_Comm) { return collective(2, b, b, count, t, 0, root); }
-int MPI_Barrier(MPI_Comm) { return collective(3, nullptr, nullptr, 0, MPI_BYTE, 0, 0); }
+int MPI_Comm_rank(MPI_Comm c, int* rank) { *rank = t_rank + ((c == MPI_COMM_WORLD && g_world) ? g_world->outsiders : 0); return MPI_SUCCESS; }
+int MPI_Comm_size(MPI_Comm c, int* size) { *size = g_world ? g_world->size + (c == MPI_COMM_WORLD ? g_world->outsiders : 0) : 1; return MPI_SUCCESS; }
+int MPI_Allreduce(void const* s, void* r, int count, MPI_Datatype t, MPI_Op op, MPI_Comm c) { return collective(c, 0, s, r, count, t, op, 0); }
+int MPI_Reduce(void const* s, void* r, int count, MPI_Datatype t, MPI_Op op, int root, MPI_Comm c) { return collective(c, 1, s, r, count, t, op, root); }
+int MPI_Bcast(void* b, int count, MPI_Datatype t, int root, MPI_Comm c) { return collective(c, 2, b, b, count, t, 0, root); }
+int MPI_Barrier(MPI_Comm c) { return collective(c, 3, nullptr, nullptr, 0, MPI_BYTE, 0, 0); }
+MPI_Comm shim_comm() { return (g_world && g_world->outsiders > 0) ? SHIM_COMM_GROUP : MPI_COMM_WORLD; }
 
-shim_report shim_run(int world, std::vector<int> const& perm, std::function<void(int)> const& body)
+shim_report shim_run(int world, std::vector<int> const& perm, std::function<void(int)> const& body, int outsiders)
 {
     World w;
-    w.size = world; w.perm = perm;
+    w.size = world; w.perm = perm; w.outsiders = outsiders;
     if (static_cast<int>(w.perm.size()) != world) { w.perm.clear(); for (int i = 0; i != world; ++i) w.perm.push_back(i); }
     w.contrib.resize(world); w.log.resize(world);
     if (char const* t = std::getenv("VERIF_SHIM_TIMEOUT")) w.timeout = std::atof(t);
